@@ -56,6 +56,14 @@ CLAIMED = {
                 note="Trusted: CrossHair, z3, pure-Python struct/BytesIO models (vf/stubs/binio.py, self-tested against the real ones each run). Floats concrete; "
                      "LZMA/CRC on concrete data only.",
                 technique=_E1),
+    "C13": dict(engine="chx", category="model_checking",
+                text="Two-session histories (add/overwrite/delete/new_file, modes w/a, per-session preload limits, archive indexes) on an in-memory file "
+                     "system are explored symbolically and every save is reopened read-only and compared with a dict oracle, verify(), the three key "
+                     "forms and an independent decoder; _get_file_parts/_join_file_parts on symbolic folder/name/ext strings; directory entries for all "
+                     "32/16-bit field values; the 64 KiB preload boundary by fixed sizes. One open known finding (names ending in '..').",
+                note="Trusted: CrossHair, z3, in-memory FS and path/struct models in vf/stubs/vpkmodel.py (self-tested each run); zlib.crc32 real, so payload "
+                     "bytes are concrete with solver-chosen lengths. Large payloads as symbols, CRC collisions, VPK v2 are outside.",
+                technique=_E1),
 }
 _TODO = "check not built yet in this round (planned: see DESIGN.md section 3)"
 NOT_APPLICABLE = {f"C{i:02d}": _TODO for i in range(1, 21) if f"C{i:02d}" not in CLAIMED}
